@@ -17,6 +17,7 @@ import (
 	log "github.com/33cn/chain33/common/log/log15"
 	"github.com/33cn/chain33/queue"
 	"github.com/33cn/chain33/types"
+	"github.com/33cn/chain33/util"
 )
 
 var mlog = log.New("module", "mempool.base")
@@ -466,11 +467,18 @@ func (mem *Mempool) delBlock(block *types.Block) {
 		if i == 0 && tx.ActionName() == types.MinerAction {
 			continue
 		}
+		members := blkTxs[i : i+1]
 		groupCount := int(tx.GetGroupCount())
 		if groupCount > 1 && i+groupCount <= len(blkTxs) {
-			group := types.Transactions{Txs: blkTxs[i : i+groupCount]}
+			members = blkTxs[i : i+groupCount]
+			group := types.Transactions{Txs: members}
 			tx = group.Tx()
 			i = i + groupCount - 1
+		}
+		//回滚通知(EventDelBlock)走消息队列的低优先级通道, 替代区块的EventAddBlock走高优先级通道,
+		//mempool繁忙时后者可能先被处理; 此时回滚区块中已被替代区块重新打包的交易不能再放回mempool
+		if newtxs, dupErr := util.CheckDupTx(mem.client, members, mem.GetHeader().GetHeight()); dupErr != nil || len(newtxs) != len(members) {
+			continue
 		}
 		err := tx.Check(cfg, mem.GetHeader().GetHeight(), mem.cfg.MinTxFeeRate, mem.api.GetConfig().GetMaxTxFee(mem.GetHeader().GetHeight()))
 		if err != nil {
